@@ -74,6 +74,11 @@ def case_line(c):
         toks = ["cmp", c["cmp"]] + val_toks(c["a"], []) + val_toks(c["b"], [])
     elif op == "ordinal":
         toks = ["ordinal"] + val_toks(c["a"], []) + [hx(c.get("z", 3.0))]
+    elif op == "minit":
+        toks = ["minit"] + [("N" if c.get(k) is None else hx(c[k])) for k in ("mu", "sigma", "beta", "kappa", "tau")] + [
+            c.get("gamma") or "N", "N" if c.get("limit") is None else ("1" if c["limit"] else "0")]
+    elif op == "helpers":
+        toks = ["helpers", hx(c["beta"])] + val_toks(c["teams"], []) + val_toks(c["ranks"], [])
     elif op == "order":
         f = c["fn"]
         if f in ("rankdata", "argsort", "pysum"):
